@@ -16,7 +16,7 @@ PROPS_MODULE = "BiotiteModel.Props.C05"
 EXT_MODULES = ["biotite.structure.io.pdbx.encoding"]
 GEN_FILES = ["BiotiteModel/Gen/C05.lean"]
 LEVEL_TEXT = ("Lean theorems, for arrays of every length: run-length, delta (with two's-complement wrap in every ≤32-bit dtype), "
-              "integer packing (1/2 bytes, signed/unsigned), byte-array, string-array and _safe_cast round trips; _to_smallest_integer_type fits; every chain "
+              "integer packing (1/2 bytes, signed/unsigned), byte-array, string-array (own or given table: accepted arrays decode to themselves, a missing string is rejected) and _safe_cast round trips; _to_smallest_integer_type fits; every chain "
               "compress() can choose for an integer column round-trips (C05_compress_candidates_sound); fixed point is within half a "
               "step when the scaled value fits int32, interval quantisation within one step, and compress() on a float column within the relative "
               "tolerance whenever _get_decimal_places returns a decimal count (C05_compress_float_tolerance), over exact rationals. Partial: IEEE "
@@ -29,7 +29,8 @@ LEVEL_NOTE = ("Trusted: Lean kernel + {propext, Classical.choice, Quot.sound}; h
 TECHNIQUE = "Lean 4 proof (induction over arrays, modular arithmetic, linear arithmetic over Q) + differential correspondence with encoding.pyx/compress.py"
 RULE = ("seeded arrays of every BinaryCIF integer dtype (boundary values, runs, empty, length 1) through "
         "RunLength/Delta/IntegerPacking/_safe_cast encode and decode, op by op against the Lean model; "
-        "round-trip oracle decode(encode(x)) == x on the real code. non-trivial = array has >= 2 distinct "
+        "round-trip oracle decode(encode(x)) == x on the real code, incl. whole files, compress() on every level with small tolerances, "
+        "NumPy-scalar encoding parameters through write/read, given string tables, and write / update in place / write again. non-trivial = array has >= 2 distinct "
         "values or hits an error/boundary branch; distinct = different (op, dtype, data)")
 TRUSTED = ["numpy casts/diff/cumsum modelled as two's-complement wrap", "msgpack (file level) trusted"]
 ASSUMPTIONS = ["float encodings (FixedPoint, IntervalQuantization) are modelled over exact rationals; float32/64 rounding is not verified"]
@@ -88,7 +89,8 @@ def _values(rng, t, n):
 
 
 def cases(rng, tier):
-    for gen in (int_cases, ext_cases, float_cases, smallest_cases, column_cases, interval32_cases, decimals_cases, reuse_cases):
+    for gen in (int_cases, ext_cases, float_cases, smallest_cases, column_cases, interval32_cases, decimals_cases, reuse_cases,
+                strtable_cases, level_cases, params_cases, rewrite_cases):
         for c in gen(rng, tier):
             rt = c.get("rt")
             if rt and rt.get("enc") in ("rle", "delta", "pack", "bytes", "compress_int", "compress_float"):
@@ -122,6 +124,69 @@ def reuse_cases(rng, tier):
             for _ in range(n - 1):
                 xs.append(xs[-1] + rng.randint(0, 300))
         yield {"kind": "u64", "rt": {"enc": "u64", "chain": rng.choice(["bytes", "delta", "rle", "delta+rle", "compress", "data"]), "data": xs}}
+
+
+def strtable_cases(rng, tier):
+    """StringArrayEncoding with a *given* table (explicit, or left over from a first use): accepted arrays decode to themselves,
+    arrays with a string the table lacks are rejected (model op `string_enc_tbl`, C05_string_table / _rejects)."""
+    pool = ["A", "B", "CA", "N", "", " ", "x y", "\u00e9", "HOH", "'", "1", "ZN", "a", "ALA", "GLY", "SER", "TRP", "CYS"]
+    for _ in range(12 if tier == "quick" else 80):
+        tbl = rng.sample(pool, rng.randint(0, 6))
+        style = rng.choice(["complete", "complete", "missing", "missing", "none-known", "dup-table", "reused"])
+        if style == "complete" and tbl:
+            data = [rng.choice(tbl) for _ in range(rng.randint(0, 8))]
+        elif style == "none-known":
+            data = [rng.choice([x for x in pool if x not in tbl]) for _ in range(rng.randint(1, 4))]
+        else:
+            data = [rng.choice(tbl + [rng.choice(pool)]) for _ in range(rng.randint(1, 8))]
+        case = {"kind": "strtable/" + style, "rt": {"enc": "strtable", "table": tbl, "data": data, "style": style}}
+        if style == "dup-table" and tbl:
+            case["rt"]["table"] = tbl + [rng.choice(tbl)]
+        elif style == "reused":
+            case["rt"]["first"] = [rng.choice(tbl) for _ in range(rng.randint(1, 6))] if tbl else ["A"]
+        else:
+            case["ops"] = [f"string_enc_tbl {_strs(tbl)} {_strs(data)}"]
+        yield case
+
+
+def level_cases(rng, tier):
+    """compress() on every level of the hierarchy (data, column, category, block, file) honours the tolerance it is given,
+    also one far below the default."""
+    for _ in range(5 if tier == "quick" else 30):
+        tol = rng.choice([1e-7, 1e-8, 1e-9, 1e-9, 1e-10])
+        digits = rng.choice([7, 8, 9])
+        xs = [round(rng.uniform(0.3, 2.1) * rng.choice([1, 1, -1]), digits) for _ in range(rng.randint(4, 40))]
+        yield {"kind": "level", "rt": {"enc": "level", "level": rng.choice(["data", "column", "category", "block", "file", "file"]),
+                                       "tol": tol, "data": [repr(x) for x in xs], "masked": rng.random() < 0.3}}
+
+
+def params_cases(rng, tier):
+    """Encoding parameters given as NumPy scalars (taken from the data: `arr.min()`, `np.float32(2.5)`, `np.int64(n)`): what is
+    read from a written file equals what the same data decodes to in memory, and the encodings read equal the ones written."""
+    for _ in range(18 if tier == "quick" else 80):
+        which = rng.choice(["interval", "interval", "fixed", "fixed", "delta", "rle", "pack"])
+        st = rng.choice(["float32", "float64", "float16", "py"] if which in ("interval", "fixed") else ["int64", "int32", "uint8", "int16", "py"])
+        n = rng.randint(2, 30)
+        if which == "interval":
+            lo = rng.choice([0.25, -3.5, 0.1, 1.0])
+            hi = lo + rng.choice([7.5, 0.75, 10.0, 3.1])
+            rt = {"enc": "params", "which": which, "st": st, "min": lo, "max": hi, "n": n,
+                  "data": [repr(lo + (hi - lo) * rng.randint(0, n - 1) / (n - 1)) for _ in range(rng.randint(1, 12))]}
+        elif which == "fixed":
+            f = rng.choice([2.5, 100.0, 0.5, 12.5, 1000.0, 3.0])
+            rt = {"enc": "params", "which": which, "st": st, "factor": f,
+                  "data": [repr(rng.randint(-400, 400) / f) for _ in range(rng.randint(1, 12))]}
+        else:
+            rt = {"enc": "params", "which": which, "st": st, "data": sorted(rng.randint(0, 90) for _ in range(rng.randint(1, 12)))}
+        yield {"kind": "params/" + which, "rt": rt}
+
+
+def rewrite_cases(rng, tier):
+    """A file object written, updated in place (arrays, masks), and written again: every write reflects the content at that time."""
+    for _ in range(4 if tier == "quick" else 20):
+        yield {"kind": "rewrite", "rt": {"enc": "rewrite", "n": rng.randint(2, 9), "frames": rng.randint(2, 3), "seed": rng.randint(0, 10 ** 9),
+                                         "through": rng.choice(["file", "file", "column", "data", "category"])}}
+
 
 
 def interval32_cases(rng, tier):
@@ -443,6 +508,9 @@ def run_impl(case):
                 ser = enc.serialize()
                 return f"ok {_strs([str(x) for x in enc.strings])} {_ints(idx)} {_ints(ser['offsets'])}"
             out.append(_fmt(fs))
+        elif w[0] == "string_enc_tbl":
+            tbl, ss = _unstrs(w[1]), _unstrs(w[2])
+            out.append(_fmt(lambda: "ok " + _ints(E.StringArrayEncoding(strings=np.array(tbl, dtype="U"), data_encoding=[]).encode(np.array(ss, dtype="U")))))
         elif w[0] == "string_dec":
             tbl, idx = _unstrs(w[1]), _parse(w[2])
             out.append(_fmt(lambda: "ok " + _strs([str(x) for x in E.StringArrayEncoding(strings=np.array(tbl, dtype="U"), data_encoding=[]).decode(np.array(idx, dtype=np.int32))])))
@@ -741,6 +809,14 @@ def oracle(case):
             if (on and abs(d) > slack) or not (-slack <= d < step + slack):
                 v.append(("C05/interval/precision", f"IntervalQuantization({mn},{mx},{n}) {rt['ft']} {float(a)!r} -> {float(b)!r} (step {step})"))
                 break
+    elif kind == "strtable":
+        v += _strtable_check(rt)
+    elif kind == "level":
+        v += _level_check(rt)
+    elif kind == "params":
+        v += _params_check(rt)
+    elif kind == "rewrite":
+        v += _rewrite_check(rt)
     elif kind == "file":
         v += _file_roundtrip(rt)
     elif kind == "column":
@@ -804,6 +880,197 @@ def _column_check(rt):
     return out
 
 
+def _strtable_check(rt):
+    import numpy as np
+    from biotite.structure.io.pdbx import bcif
+    from biotite.structure.io.pdbx import encoding as E
+    data = list(rt["data"])
+    arr = np.array(data, dtype="U")
+    try:
+        if rt.get("first") is not None:
+            enc = E.StringArrayEncoding()
+            bcif.BinaryCIFData(np.array(rt["first"], dtype="U"), [enc]).serialize()     # the first use fixes the table
+            tbl = [str(x) for x in enc.strings]
+        else:
+            tbl = list(rt["table"])
+            enc = E.StringArrayEncoding(strings=np.array(tbl, dtype="U"))
+        ser = bcif.BinaryCIFData(arr, [enc]).serialize()
+    except Exception:
+        return []                                                                        # rejected: fine
+    out = []
+    if any(x not in tbl for x in data):
+        out.append(("C05/StringArray/missing-string-accepted", f"table {tbl} accepted {data} although it lacks {[x for x in data if x not in tbl][:3]}"))
+    try:
+        back = [str(x) for x in bcif.BinaryCIFData.deserialize(ser).array]
+    except Exception as e:  # noqa: BLE001
+        return out + [("C05/StringArray/table-decode-fails", f"table {tbl}, data {data}: {type(e).__name__}: {e}")]
+    if back != data:
+        out.append(("C05/StringArray/table-roundtrip", f"table {tbl}: wrote {data}, read back {back}"))
+    return out
+
+
+def _level_check(rt):
+    import io
+
+    import numpy as np
+    from biotite.structure.io.pdbx import bcif
+    from biotite.structure.io.pdbx import compress as _compress_fn
+    values = np.array([float(x) for x in rt["data"]], dtype=np.float64)
+    tol, level = rt["tol"], rt["level"]
+    mask = np.array([1 if (rt["masked"] and i % 5 == 4) else 0 for i in range(len(values))], dtype=np.uint8) if rt["masked"] else None
+    obj = bcif.BinaryCIFData(values.copy())
+    if level != "data":
+        obj = bcif.BinaryCIFColumn(obj, mask)
+    if level in ("category", "block", "file"):
+        obj = bcif.BinaryCIFCategory({"val": obj})
+    if level in ("block", "file"):
+        obj = bcif.BinaryCIFBlock({"cat": obj})
+    if level == "file":
+        obj = bcif.BinaryCIFFile({"blk": obj})
+    try:
+        c = _compress_fn(obj, float_tolerance=tol)
+        if level == "file":
+            buf = io.BytesIO()
+            c.write(buf)
+            buf.seek(0)
+            c = bcif.BinaryCIFFile.read(buf)["blk"]
+        if level in ("file", "block"):
+            c = c["cat"]
+        if level in ("file", "block", "category"):
+            c = c["val"]
+        if level != "data":
+            c = c.data
+        encs = [type(e).__name__ for e in c.encoding]
+        back = bcif.BinaryCIFData.deserialize(c.serialize()).array
+    except Exception as e:  # noqa: BLE001
+        return [("C05/compress/level-fails", f"compress({level}, float_tolerance={tol}) of {len(values)} finite floats: {type(e).__name__}: {e}")]
+    if len(back) != len(values):
+        return [("C05/compress/level-length", f"compress({level}) {len(values)} values -> {len(back)}")]
+    for a, b in zip(values, back):
+        if not abs(float(b) - float(a)) <= (tol + 2.0 ** -50) * abs(float(a)):
+            return [("C05/compress/level-tolerance", f"compress({level}, float_tolerance={tol}) {float(a)!r} -> {float(b)!r} "
+                     f"(relative error {abs(float(b) - float(a)) / abs(float(a)):.3g}) via {encs}")]
+    return []
+
+
+def _np_scalar(st, x, integral=False):
+    import numpy as np
+    if st == "py":
+        return int(x) if integral else x
+    if integral:
+        return getattr(np, st if st.startswith(("int", "uint")) else "int64")(x)
+    return getattr(np, st if st.startswith("float") else "float64")(x)
+
+
+def _params_check(rt):
+    import io
+
+    import numpy as np
+    from biotite.structure.io.pdbx import bcif
+    from biotite.structure.io.pdbx import encoding as E
+    st, which = rt["st"], rt["which"]
+    try:
+        if which == "interval":
+            arr = np.array([float(x) for x in rt["data"]], dtype=np.float64)
+            encs = [E.IntervalQuantizationEncoding(min=_np_scalar(st, rt["min"]), max=_np_scalar(st, rt["max"]), num_steps=_np_scalar(st, rt["n"], True)),
+                    E.ByteArrayEncoding()]
+        elif which == "fixed":
+            arr = np.array([float(x) for x in rt["data"]], dtype=np.float64)
+            encs = [E.FixedPointEncoding(factor=_np_scalar(st, rt["factor"])), E.ByteArrayEncoding()]
+        elif which == "delta":
+            arr = np.array(rt["data"], dtype=np.int32)
+            encs = [E.DeltaEncoding(origin=_np_scalar(st, rt["data"][0], True)), E.ByteArrayEncoding()]
+        elif which == "rle":
+            arr = np.array(rt["data"], dtype=np.int32)
+            encs = [E.RunLengthEncoding(src_size=_np_scalar(st, len(rt["data"]), True)), E.ByteArrayEncoding()]
+        else:
+            arr = np.array(rt["data"], dtype=np.int32)
+            encs = [E.IntegerPackingEncoding(byte_count=_np_scalar(st, 1, True), src_size=_np_scalar(st, len(rt["data"]), True), is_unsigned=np.bool_(True)),
+                    E.ByteArrayEncoding()]
+        data = bcif.BinaryCIFData(arr, encs)
+        mem = bcif.BinaryCIFData.deserialize(data.serialize())
+    except Exception:
+        return []          # this parameter type is refused up front (or the data do not fit): nothing was written
+    try:
+        f = bcif.BinaryCIFFile({"blk": bcif.BinaryCIFBlock({"cat": bcif.BinaryCIFCategory({"col": bcif.BinaryCIFColumn(data)})})})
+        buf = io.BytesIO()
+        f.write(buf)
+        buf.seek(0)
+        got = bcif.BinaryCIFFile.read(buf)["blk"]["cat"]["col"].data
+        garr = got.array
+    except Exception as e:  # noqa: BLE001
+        return [("C05/file/numpy-parameter-write-fails", f"{which} encoding with {st} parameters encodes in memory but the file cannot be written/read: {type(e).__name__}: {e}")]
+    out = []
+    # the stated precision of the encoding as it was constructed (not: bit-equality of two decoders fed differently typed parameters)
+    rel = {"float16": 2.0 ** -9, "float32": 2.0 ** -22}.get(st, 2.0 ** -50)
+    if which == "interval":
+        prec = (rt["max"] - rt["min"]) / (rt["n"] - 1) + rel * max(abs(rt["min"]), abs(rt["max"]), 1.0) * 2
+    elif which == "fixed":
+        prec = 0.5 / rt["factor"] * (1 + 4 * rel) + 1e-9
+    else:
+        prec = 0
+    want = [float(x) for x in arr]
+    if len(garr) != len(want) or any(not abs(float(b) - a) <= prec + rel * abs(a) for a, b in zip(want, garr)):
+        out.append(("C05/file/numpy-parameter-roundtrip", f"{which} encoding with {st} parameters {rt}: wrote {want[:8]}, "
+                    f"the written file decodes to {garr.tolist()[:8]} (in memory: {mem.array.tolist()[:8]}; stated precision {prec:.3g})"))
+    elif got.encoding != mem.encoding:
+        out.append(("C05/file/numpy-parameter-encoding", f"{which} encoding with {st} parameters: written {mem.encoding} read {got.encoding}"))
+    return out
+
+
+def _rewrite_check(rt):
+    import io
+    import random
+
+    import numpy as np
+    from biotite.structure.io.pdbx import bcif
+    from biotite.structure.io.pdbx import encoding as E
+    r = random.Random(rt["seed"])
+    n = rt["n"]
+    ids = np.arange(1, n + 1, dtype=np.int32)
+    coord = np.array([r.randint(-800, 800) / 4 for _ in range(n)], dtype=np.float32)
+    mask = np.array([r.choice([0, 0, 1]) for _ in range(n)], dtype=np.uint8)
+    cat = bcif.BinaryCIFCategory({
+        "id": bcif.BinaryCIFColumn(bcif.BinaryCIFData(ids, [E.ByteArrayEncoding()])),
+        "x": bcif.BinaryCIFColumn(bcif.BinaryCIFData(coord, [E.FixedPointEncoding(100), E.ByteArrayEncoding()]), mask=mask),
+        "plain": bcif.BinaryCIFColumn(np.array([r.randint(0, 50) for _ in range(n)], dtype=np.int16)),
+    })
+    f = bcif.BinaryCIFFile({"blk": bcif.BinaryCIFBlock({"atoms": cat})})
+    through = rt["through"]
+
+    def snapshot():
+        if through == "file":
+            buf = io.BytesIO()
+            f.write(buf)
+            buf.seek(0)
+            c = bcif.BinaryCIFFile.read(buf)["blk"]["atoms"]
+        elif through == "category":
+            c = bcif.BinaryCIFCategory.deserialize(cat.serialize())
+        elif through == "column":
+            c = {k: bcif.BinaryCIFColumn.deserialize(col.serialize()) for k, col in cat.items()}
+        else:
+            c = {k: bcif.BinaryCIFColumn(bcif.BinaryCIFData.deserialize(col.data.serialize()),
+                                         None if col.mask is None else bcif.BinaryCIFData.deserialize(col.mask.serialize())) for k, col in cat.items()}
+        return {k: (c[k].data.array.tolist(), None if c[k].mask is None else c[k].mask.array.tolist()) for k in ("id", "x", "plain")}
+
+    for frame in range(rt["frames"]):
+        try:
+            got = snapshot()
+        except Exception as e:  # noqa: BLE001
+            return [("C05/rewrite/fails", f"frame {frame} through {through}: {type(e).__name__}: {e}")]
+        for k, col in cat.items():
+            want = (col.data.array.tolist(), None if col.mask is None else col.mask.array.tolist())
+            if got[k][0] != want[0] or (want[1] is not None and got[k][1] != want[1]):
+                return [("C05/rewrite/stale-content", f"write number {frame + 1} through {through}, column {k!r}: the object holds {want} but the written bytes decode to {got[k]}")]
+        # next frame: update in place
+        cat["x"].data.array[:] += np.float32(0.25)
+        cat["x"].mask.array[:] = np.roll(cat["x"].mask.array, 1)
+        cat["id"].data.array[:] += 1
+        cat["plain"].data.array[r.randrange(n)] += 1
+    return []
+
+
+
 def _file_roundtrip(rt):
     """BinaryCIFFile with int/float/string columns and masks: write -> read (plain and compressed) equal."""
     import io
@@ -857,7 +1124,7 @@ def _file_roundtrip(rt):
 
 
 def nontrivial(case, impl_out):
-    if case["kind"] in ("file", "column", "interval32", "decimals", "reuse", "u64"):
+    if case["kind"].split("/")[0] in ("file", "column", "interval32", "decimals", "reuse", "u64", "strtable", "level", "params", "rewrite"):
         return True
     data = (case.get("rt") or {}).get("data")
     if data is not None and len(set(data)) >= 2:
